@@ -122,6 +122,24 @@ def check_pairing(fx, rep):
                          any(m.get('k') == 'macro' and 'rename' in (m.get('fmt') or '') for m in A.nodes(p.get('then')))]
                 ok = any(('!=' + want) in c for c in conds)
                 how = 'attribute built under `converted != %s`' % want
+            # the emitted identifier may be escaped further by safe_ident (keywords; self/Self/super/crate get a trailing `_`): the decision
+            # must then look at the escaped identifier, or at the keyword test, not only at the converted name
+            if ok and how and 'unconditional' not in how and 'helper' not in how:
+                lets = {(y.get('pat') or '').replace('mut ', '').strip(): A.text(y.get('init')) for y in A.nodes(n['body']) if y.get('k') == 'let' and isinstance(y.get('init'), dict)}
+                conv_vars = [v for v, init in lets.items() if re.sub(r'\s', '', init).startswith(want.replace(' ', '') + '.' + nm)]
+                safe_vars = [v for v, init in lets.items() if 'safe_ident' in init and any(cv in init for cv in conv_vars)]
+                conds_all = [re.sub(r'\s', '', p.get('cond') or '') for p in A.nodes(n['body']) if p.get('k') == 'if']
+                rel = [c for c in conds_all if ('!=' + want) in c or (want + '!=') in c]
+                if safe_vars and rel:
+                    uses_safe = any(sv + '!=' in c or '!=' + sv in c or ('&' + sv) in c for c in rel for sv in safe_vars)
+                    uses_kw = any('is_rust_keyword' in c for c in rel)
+                    if not (uses_safe or uses_kw):
+                        ok = False
+                        how = 'decided on the converted name only'
+                        rep.bad('R15.1', key, C.where(body, blk),
+                                'the rename for the %s name is decided by comparing only the case-converted name with %s, but the emitted identifier is further escaped by '
+                                'safe_ident (keywords; `self`/`Self`/`super`/`crate` become `self_` ...): for such names no rename is emitted and the escaped spelling reaches the wire' % (kind.split('::')[-1], want))
+                        continue
             rep.check(ok, 'R15.1', key, C.where(body, blk), 'converted %s name is paired with a rename carrying %s (%s)' % (kind.split('::')[-1], want, how),
                       'the %s name is case-converted (%s) but the emitter does not pair it with a rename attribute carrying the IDL spelling %s: '
                       'camelCase / acronym names reach the wire in their converted form' % (kind.split('::')[-1], nm, want))
